@@ -167,6 +167,12 @@ func snapshot(root string) (map[string]entry, error) {
 			res[rel] = entry{isDir: true}
 			return nil
 		}
+		if d.Type()&fs.ModeSymlink != 0 {
+			// a symbolic link is an entry of its own: what it points to is not part of the tree
+			to, _ := os.Readlink(path)
+			res[rel] = entry{content: "-> " + to, mode: 0o777}
+			return nil
+		}
 		b, err := os.ReadFile(path)
 		if err != nil {
 			return err
@@ -295,7 +301,7 @@ func checkClean(before, after map[string]entry, targetIsDot bool) error {
 type replayPayload struct {
 	Gen    string `json:"gen"`
 	Tree   *Node  `json:"tree"`
-	Mode   string `json:"mode"` // plain | dot | dotslash | missing
+	Mode   string `json:"mode"` // plain | dot | dotslash | symlinks | missing
 }
 
 var scratch string
@@ -312,6 +318,18 @@ func runTree(n *Node, mode string) (class string, err error) {
 		}
 		// a sibling outside the target that must never be touched
 		os.WriteFile(filepath.Join(root, "outside.txt"), []byte("outside"), 0o644)
+		if mode == "symlinks" {
+			// symbolic links in the target: one to a directory outside it that holds files of the generator's kind
+			// and an empty directory, one that points nowhere. Both are foreign entries; neither is followed.
+			linked := filepath.Join(root, "linked")
+			os.MkdirAll(filepath.Join(linked, "emptysub"), 0o755)
+			os.WriteFile(filepath.Join(linked, "Thing"+utils.GeneratedFileSuffix), []byte("package x\n"), 0o444)
+			os.WriteFile(filepath.Join(linked, "keep.txt"), []byte("keep"), 0o644)
+			os.Symlink("../linked", filepath.Join(target, "zlink"))
+			os.Symlink("../nowhere", filepath.Join(target, "dangling"))
+			before["zlink"] = entry{content: "-> ../linked", mode: 0o777}
+			before["dangling"] = entry{content: "-> ../nowhere", mode: 0o777}
+		}
 	} else {
 		os.MkdirAll(root, 0o755)
 	}
@@ -342,6 +360,12 @@ func runTree(n *Node, mode string) (class string, err error) {
 	if mode != "missing" {
 		if b, err := os.ReadFile(filepath.Join(root, "outside.txt")); err != nil || string(b) != "outside" {
 			return "", fmt.Errorf("file outside the target directory was touched")
+		}
+	}
+	if mode == "symlinks" {
+		ls, _ := snapshot(filepath.Join(root, "linked"))
+		if len(ls) != 4 || !ls["emptysub"].isDir || ls["keep.txt"].content != "keep" || ls["Thing"+utils.GeneratedFileSuffix].content != "package x\n" {
+			return "", fmt.Errorf("the directory a symbolic link in the target points to was modified: %s", snapString(ls))
 		}
 	}
 	if err := clean(); err != nil {
@@ -444,7 +468,7 @@ func main() {
 			}
 			modes := []string{"plain"}
 			if i%97 == 0 || len(n.Dirs)+len(n.Files) <= 1 {
-				modes = append(modes, "dot", "dotslash") // the current directory as target (spelled "." and "./"), on a sub-family
+				modes = append(modes, "dot", "dotslash", "symlinks") // the current directory as target (spelled "." and "./") and symbolic links in the target, on a sub-family
 			}
 			for _, mode := range modes {
 				class, err := runTree(n, mode)
